@@ -239,7 +239,9 @@ namespace OP2Utility::Archive
 
 		// Copy files into the archive
 		for (std::size_t i = 0; i < header.packedFilesCount; ++i) {
-			clmFileWriter.Write(*filesToPackReaders[i]);
+			// Copy only the audio data chunk. Other chunks may follow it in the source file
+			auto dataSlice = filesToPackReaders[i]->Slice(indexEntries[i].dataLength);
+			clmFileWriter.Write(dataSlice);
 		}
 	}
 
